@@ -282,3 +282,18 @@ CHECKS["C16"] = {
                 "writes inside library code behind stubs (assumed not to write to their arguments)", "logger's own synchronisation"],
     "assumptions": PKI_ASSUME + ["Go's append writes in place iff the result fits the capacity (solver-decided per call)"],
 }
+
+CHECKS["C18"] = {
+    "groups": ["c18"],
+    "quick": {"match": "^H18", "budget": 600},
+    "thorough": {"match": "^[HT]18", "budget": 3000, "query_timeout_ms": 120000},
+    "replay": "model",
+    "what": "rtmr.ParseCcelWithTdQuote, GetRtmrsFromTdQuote, getRtmrsFromTdQuoteV4, TdxDefaultOpts with validate.TdxQuote executed for real on a "
+            "symbolic quote and symbolic policy, verify.TdxQuote summarised as a symbolic verdict (its content is C01-C07), go-eventlog's "
+            "ReplayAndExtract as the uninterpreted predicate ReplayOK(table, log, (index_i, digest_i)); asserted: a state is returned only if "
+            "verification passed, the policy verdict is nil and ReplayOK holds for exactly the bank [(i, quote.RTMR[i]) for i < 4]; no replay "
+            "before both gates; the default options bind REPORT_DATA to nonce || 0",
+    "bounds": {"policy": "none / REPORT_DATA / MR_TD + minimum QE SVN", "rtmr_count_for_extraction": "0..6"},
+    "outside": ["go-eventlog's replay itself (contract stub)", "what verify.TdxQuote checks (C01-C07)"],
+    "assumptions": ["verify.TdxQuote does not modify the quote (C16)", "ccel.ReplayAndExtract returns a state iff replaying the log reproduces every supplied register"],
+}
